@@ -27,6 +27,7 @@ def run(ctx, rep):
     list_equality(F, rep)
     value_equality(F, rep)
     element_store(F, rep)
+    map_delegation(F, rep)
     if _casts is not None:
         _casts.run_c13(F, rep)
 
@@ -160,3 +161,29 @@ def element_store(F, rep):
                "ok" if through and slot_ok else "violated",
                "store of the parameter on every Ok path=%s slot from the container=%s" % (through, slot_ok), hs.span, fn=hs.path,
                key="C13.element-store|HeapPrimitive::set|%s" % arm)
+
+
+MAP_DELEGATION = {"insert": "insert", "get": "get", "len": "len", "contains_key": "contains_key", "keys": "keys", "values": "values", "pairs": "iter",
+                  "clear": "clear", "remove": "remove"}
+
+
+def map_delegation(F, rep):
+    """GcMap is a thin wrapper around a HashMap<Primitive, Primitive>: each of its operations answers from the HashMap operation of the same
+    meaning, and from no other (contains_key answered through get() reads a key bound to nil as absent; len through keys().len() is fine but is
+    not what the code does -- any change of the delegate is reported and has to be looked at)."""
+    n = 0
+    for m, std in sorted(MAP_DELEGATION.items()):
+        f = F.fn("bytecode::variables::primitive::GcMap::" + m)
+        if f is None:
+            raise AnchorMissing("GcMap::" + m)
+        bodies = [f] + F.closures_of(f)
+        std_calls = sorted({mir.strip_generics(c.callee()).rsplit("::", 1)[-1] for g in bodies for c in g.calls()
+                            if "collections::hash::map::HashMap" in c.callee() or "hashbrown" in c.callee()})
+        own = sorted({mir.short(c.callee()) for g in bodies for c in g.calls() if c.callee().startswith("bytecode::variables::primitive::GcMap::")})
+        n += 1
+        # answering through another wrapper operation imports that operation's extra meaning (get() turns "absent" into nil): a violation.
+        # answering from a different HashMap primitive may well be equivalent: reported as undecided, never as an alarm.
+        st = "violated" if (own or not std_calls) else ("ok" if std in std_calls else "undecided")
+        rep.ob("C13.map-delegation", "GcMap::%s answers from the inner HashMap (HashMap::%s), not through another wrapper operation" % (m, std), st,
+               "calls on the inner map: %s; calls of other GcMap operations: %s" % (std_calls, own), f.span, fn=f.path, key="C13.map-delegation|%s" % m)
+    rep.floor("C13.map-delegation operations", n, 9)
